@@ -936,6 +936,8 @@ func main() {
 					for idx := from; idx < to && len(r.Violations) == 0 && r.Inconclusive == ""; idx++ {
 						rng := c.Rand(idx)
 						g := []int{2, 3, 4, 8, 16, 32}[rng.Intn(6)]
+						r.Evals++
+						r.AddKey(fmt.Sprintf("w%d|%d|%d|%d", idx%5, idx, g, rng.Int63()))
 						armNoise(rng.Uint64(), rng.Intn(3))
 						switch idx % 5 {
 						case 0:
